@@ -432,36 +432,53 @@ func matchKnownC02(k *KnownFinding, f *Finding) bool {
 
 // RunC02 is the check of property C02.
 func RunC02(env *Env, rep *Report) {
-	maxLeaves, extra := 3, 1
-	contexts := []string{"if", "while"}
+	// structure families: {leaves, redundant parenthesis pairs, with '!', contexts}
+	type fam struct {
+		n, extra int
+		neg      bool
+		ctxs     []string
+		flat     int // when > 0: only expressions with this many top-level operands
+	}
+	two := []string{"if", "while"}
+	four := []string{"if", "elif", "while", "dowhile"}
+	one := []string{"if"}
+	// quick: up to 3 leaves in full; the chains of 4 top-level operands (where
+	// finding #1 lived) without '!', also with one operand in redundant
+	// parentheses or one operand a two-leaf group
+	fams := []fam{{1, 1, true, two, 0}, {2, 1, true, two, 0}, {3, 1, true, one, 0}, {4, 1, false, one, 4}, {5, 0, false, one, 4}}
+	maxLeaves := 5
 	if env.Tier == "thorough" {
-		maxLeaves, extra = 4, 1
-		contexts = []string{"if", "elif", "while", "dowhile"}
+		// 4 leaves with one redundant pair are 1.2 million expressions (about 17
+		// CPU hours): the thorough tier takes 4 leaves without redundant pairs
+		// and 5 leaves without '!' instead.
+		fams = []fam{{1, 1, true, four, 0}, {2, 1, true, four, 0}, {3, 1, true, four, 0}, {4, 0, true, one, 0}, {4, 1, false, one, 0}, {5, 0, false, one, 0}}
+		maxLeaves = 5
 	}
 	if v := envInt("VERIF_C02_LEAVES"); v > 0 {
+		fams = append(fams, fam{v, 0, true, one, 0})
 		maxLeaves = v
 	}
 	var cases []*Case
 	nStruct := 0
-	for n := 1; n <= maxLeaves; n++ {
-		for _, l := range enumLevels(n, extra, true) {
-			for ci, ctx := range contexts {
-				if n == maxLeaves && ci > 0 {
-					continue // the largest size in the 'if' context only
-				}
+	var famDesc []string
+	for _, f := range fams {
+		ls := enumLevels(f.n, f.extra, f.neg)
+		k := 0
+		for _, l := range ls {
+			if f.flat > 0 && len(l.operands) != f.flat {
+				continue
+			}
+			for _, ctx := range f.ctxs {
 				cases = append(cases, c02StructCase(l, ctx))
 				nStruct++
+				k++
 			}
 		}
-	}
-	// quick tier: the 4-leaf chains without parentheses (where finding #1 lives)
-	if maxLeaves < 4 {
-		for _, l := range enumLevels(4, 0, false) {
-			if len(l.operands) == 4 {
-				cases = append(cases, c02StructCase(l, "if"))
-				nStruct++
-			}
+		d := fmt.Sprintf("%d leaves, <=%d redundant parenthesis pairs, '!' %v, contexts %v: %d cases", f.n, f.extra, f.neg, f.ctxs, k)
+		if f.flat > 0 {
+			d += fmt.Sprintf(" (only chains of %d top-level operands)", f.flat)
 		}
+		famDesc = append(famDesc, d)
 	}
 	forms := c02LeafForms()
 	nLeaf := 0
@@ -494,7 +511,7 @@ func RunC02(env *Env, rep *Report) {
 	}
 	rep.Technique = "symbolic execution of the real condition parser and emitter (go/ssa) + SMT-discharged bisimulation against the usual reading of the written expression"
 	rep.Explanation = "Bounded symbolic verification, not a proof. (a) structure: every written expression with up to the stated number of flag() leaves - every operator string over {&&,||}, every parenthesisation including redundant pairs, '!' on any leaf or group - is compiled symbolically in if/else (and loop) position; the emitted test chain must be bisimilar to the usual reading (! > && > ||, short-circuit, left to right) for every truth assignment: the assignment is the symbolic epoch state, so all 2^n assignments are one SMT query per outcome pair. (b) leaf meaning: every leaf form (flag/defeated bare, !, ==/!= TRUE/FALSE/true/false; var bare, !, six operators x number / identifier / multi-token / var-range constant, with and without value()) alone, negated, doubly negated and in pairs under && / || and negated groups; var values, comparison constants and 'is this constant in the var-id range' are symbolic, so a swapped compare/compare_var_to_value or a wrong De-Morgan flip has a witness."
-	rep.Bounds = map[string]interface{}{"max_leaves": maxLeaves, "redundant_parenthesis_pairs": extra, "contexts": contexts, "structure_cases": nStruct, "leaf_cases": nLeaf, "leaf_forms": len(forms)}
+	rep.Bounds = map[string]interface{}{"max_leaves": maxLeaves, "structure_families": famDesc, "structure_cases": nStruct, "leaf_cases": nLeaf, "leaf_forms": len(forms)}
 	rep.Outside = []string{"expressions with more leaves or more redundant parentheses than the bound", "leaf forms combined in expressions of more than two leaves"}
 	rep.Assumptions = []string{"assembly semantics of DESIGN.md §4.1 (compare reads a var when the constant lies in 0x4000-0x40FF / 0x8000-0x8015, compare_var_to_value never does)",
 		"operand and command names are identifiers (Int-coded atoms); flag names may alias each other"}
